@@ -21,7 +21,7 @@ import (
 
 func bgvConfigs(tier string) []bgvu.Conf {
 	t30 := bgvu.PlainModulus(4, 30)
-	t60 := bgvu.PlainModulus(4, 60)
+	t60 := bgvu.PlainModulusAt(4, 60, 7, 10) // 60 bits, below Q[0]/2 for the 61-bit chain at 0.9*2^61
 	cs := []bgvu.Conf{
 		{Name: "t17-n16-gap2", LogN: 4, QBits: 30, NQ: 3, PBits: 30, NP: 1, T: 17},
 		{Name: "t97-n16-gap1", LogN: 4, QBits: 30, NQ: 3, PBits: 30, NP: 1, T: 97},
@@ -30,7 +30,7 @@ func bgvConfigs(tier string) []bgvu.Conf {
 		{Name: "t193-n32-gap1", LogN: 5, QBits: 30, NQ: 3, PBits: 30, NP: 1, T: 193},
 		{Name: "t65537-n16", LogN: 4, QBits: 55, NQ: 3, PBits: 55, NP: 1, T: 65537},
 		{Name: "t30b-n16", LogN: 4, QBits: 55, NQ: 3, PBits: 55, NP: 1, T: t30},
-		{Name: "t60b-n16", LogN: 4, QBits: 60, NQ: 3, PBits: 60, NP: 1, T: t60, QAbove: true},
+		{Name: "t60b-n16", LogN: 4, NQ: 3, NP: 1, T: t60, Q: bgvu.Q61(4, 3, 0), P: bgvu.Q61(4, 1, 3)},
 		{Name: "t17-n64-gap8", LogN: 6, QBits: 30, NQ: 3, PBits: 30, NP: 1, T: 17},
 		{Name: "t97-n64-gap4", LogN: 6, QBits: 55, NQ: 2, PBits: 55, NP: 2, T: 97},
 	}
@@ -38,7 +38,7 @@ func bgvConfigs(tier string) []bgvu.Conf {
 		cs = append(cs,
 			bgvu.Conf{Name: "t17-n128-gap16", LogN: 7, QBits: 30, NQ: 3, PBits: 30, NP: 1, T: 17},
 			bgvu.Conf{Name: "t257-n64-gap1", LogN: 6, QBits: 30, NQ: 4, PBits: 30, NP: 1, T: 257},
-			bgvu.Conf{Name: "t60b-n32", LogN: 5, QBits: 60, NQ: 2, PBits: 60, NP: 1, T: bgvu.PlainModulus(5, 60), QAbove: true},
+			bgvu.Conf{Name: "t60b-n32", LogN: 5, NQ: 2, NP: 1, T: bgvu.PlainModulusAt(5, 60, 7, 10), Q: bgvu.Q61(5, 2, 0), P: bgvu.Q61(5, 1, 2)},
 		)
 	}
 	return cs
@@ -151,7 +151,6 @@ func (w *bgvWorld) roundTrip(c *engine.Chooser, bc bgvCase, typed interface{}, w
 	// in that corner get their own signature so that the finding does not hide anything else.
 	if q := uni.QAtLevel(w.p.Parameters, bc.level); new(big.Int).Lsh(new(big.Int).SetUint64(t), 1).Cmp(q) > 0 {
 		sig = "C07/bgv/plaintext-modulus-above-half-Q-at-level"
-		c.Cover("bgv-corner", "t>Q_level/2")
 	}
 	pt := bgv.NewPlaintext(w.p, bc.level)
 	pt.IsBatched = bc.batched
@@ -771,8 +770,46 @@ func bgvAllScalesScenario(cf bgvu.Conf) engine.Scenario {
 	}}
 }
 
+// cornerScenario: plaintext modulus between Q[0]/2 and Q[0] (t the 60-bit prime below 2^60, Q the primes just above
+// 2^60). A level-0 plaintext cannot hold residues in [0,t) there, so the parameters must either be refused by
+// bgv.NewParameters (counted as rejected) or, if accepted, encode/decode correctly at every level. The accepted-and-
+// wrong case is the triaged finding C07/bgv/plaintext-modulus-above-half-Q-at-level (signature set in roundTrip).
+func bgvCornerScenario() engine.Scenario {
+	cf := bgvu.Conf{Name: "t60b-corner-t-above-half-q0", LogN: 4, QBits: 60, NQ: 3, PBits: 60, NP: 1, T: bgvu.PlainModulus(4, 60), QAbove: true}
+	return engine.Scenario{Name: "bgv/" + cf.Name, Bound: -1, Fn: func(c *engine.Chooser) {
+		c.Cover("bgv-corner", "t>Q0/2")
+		if _, err := cf.TryBuild(); err != nil {
+			c.Cover("rejected", "bgv parameters with t > Q[0]/2")
+			c.Outcome("corner", "rejected")
+			return
+		}
+		w := getBgvWorld(cf)
+		bc := bgvCase{batched: c.Choose(2, "domain") == 0, signed: c.Bool("signed"), level: c.Choose(w.L+1, "level"), scale: w.scales[c.Choose(3, "scale")]}
+		t := w.t
+		for _, res := range [][]uint64{{1}, {1, 2, t - 1, t - 2}, {t / 2, t/2 + 1, 3}} {
+			var typed interface{}
+			var want []uint64
+			if bc.signed {
+				v := make([]int64, len(res))
+				for i, x := range res {
+					v[i] = bgvu.Centered(x, t)
+				}
+				typed, want = typedI(v, t)
+			} else {
+				typed, want = typedU(res, t)
+			}
+			if !w.roundTrip(c, bc, typed, want, true) {
+				return
+			}
+		}
+		c.Outcome("corner", bc.String())
+		c.Count(3)
+	}}
+}
+
 func bgvScenarios(tier string) []engine.Scenario {
 	var scs []engine.Scenario
+	scs = append(scs, bgvCornerScenario())
 	for _, cf := range bgvConfigs(tier) {
 		scs = append(scs, bgvStructureScenario(cf), bgvShortDecodeScenario(cf), bgvProductScenario(cf), bgvEmbedScenario(cf), bgvAllScalesScenario(cf))
 		for _, b := range []bool{true, false} {
